@@ -198,10 +198,11 @@ impl Broker {
             return v;
         }
         let win = self.cfg.reorder_window.max(1);
-        for i in 0..self.owed.len().min(win) {
-            if matches!(self.owed[i], Owed::PingResp) && self.cfg.pingresp_optional {
-                // offered, but after the others so that it is not the default when something else is owed
-            }
+        let mut order: Vec<usize> = (0..self.owed.len()).collect();
+        if self.cfg.pubcomp_last {
+            order.sort_by_key(|i| (matches!(self.owed[*i], Owed::Ack { kind: AckKind::PubComp, .. }), *i));
+        }
+        for i in order.into_iter().take(win) {
             v.push(Emit::Owed(i));
         }
         if self.script_next < self.cfg.script.len() {
